@@ -378,6 +378,7 @@ pub fn check(c: &Case, seams_open: bool) -> CheckResult {
     if !c.aligned && !model.boundary_near_vertex && model.pieces.len() <= 150 {
         let mut dt = DrawTarget::new(c.w, c.h);
         dt.set_transform(&to_transform(&c.xf));
+        harmless_prelude(&mut dt, (c.w * 7 + c.h * 13 + c.path.ops.len() as i32 * 5 + dashes.len() as i32) as u32);
         dt.stroke(&path, &Source::Solid(SolidSource { r: 255, g: 255, b: 255, a: 255 }), &style, &DrawOptions::new());
         let got = dt.get_data().to_vec();
         let piece_polys: Vec<Poly> = model.pieces.iter().map(|p| p.poly.clone()).collect();
